@@ -200,4 +200,20 @@ def run(ck, P):
     ck.ob("C19.5-TICK-REARM", "Lib/core:ev_src_t.tmr_src.its.ns writers", not inplace, "nobody edits a registered timer's period in place: %s" % [(w.fn.name, w.line) for w in inplace],
           nontrivial=False)
 
+    # the configured period reaches the kernel in full width (ticks, like every timer, are armed by create_timerfd)
+    from props.common import narrowing_casts
+    ctf = P.fn("create_timerfd")
+    ck.analysed(ctf)
+    nar = []
+    for ev in ctf.events():
+        e0 = ev.e if ev.kind != "decl" else (ev.rhs or {})
+        for (fr_, to_, inner_) in narrowing_casts(e0, explicit=True):
+            if "its.ns" in inner_ or "->ns" in inner_:
+                nar.append((inner_, fr_, to_, ev.line))
+    arms = [e for e in ctf.events() if e.kind == "assign" and ("tv_sec" in S(e.lhs) or "tv_nsec" in S(e.lhs))]
+    ck.ob("C19.5-TICK-REARM", ctf.site("period in full width"), not nar and len(arms) >= 2,
+          "the period is split into seconds/nanoseconds in 64-bit arithmetic" if not nar else
+          "'%s' is converted from '%s' to '%s' at line %d before the timer is armed: periods that do not fit (≥ 2^31 ns ≈ 2.1 s) arm a much shorter timer — "
+          "ticks arrive more often than configured" % nar[0])
+
     ck.not_decided += ["which subscribers receive the notification (C02)", "tick period as wall-clock behaviour (only the re-arming shape is decided)"]
